@@ -917,6 +917,12 @@ class Models:
                 return self.make_set(ex, [])
             if isinstance(args[0], tuple) and not args[0]:
                 return self.make_set(ex, [])
+            if isinstance(args[0], Ref) and isinstance(st.heap[args[0].id], PyObj):
+                # an object iterating over one of its sets (e.g. RequiredNames): set(obj) is a copy of that set
+                seq0 = ex.to_iter(args[0], lineno)
+                src_set = getattr(seq0, "source_set", None)
+                if src_set is not None:
+                    return st.alloc(SetObj(src_set[0], src_set[1], src_set[2]))
             mem = self._iter_member(ex, args[0], kt)
             n = st.fresh_int("setn")
             o = SetObj(kt, mem, n)
